@@ -137,17 +137,39 @@ def _r5(ctx):
     ctx.rule("R-C12-5", floor=3, what="the validated R segment order reaches the distance sort unchanged (ties keep the validated order)")
     init = prog.func(MS + ":_SegmentTransformer.__init__")
     params = [p_ for p_ in init.params if p_ != "self"]
-    st = [s_ for s_ in walk_function(init.node) if isinstance(s_, ast.Assign) and is_self_attr(s_.targets[0], "_R_index")]
-    if len(st) != 1:
-        raise AnalysisError("_SegmentTransformer.__init__: single store of _R_index expected")
-    chain = [(init, st[0], st[0].value)]
+    # roles, not names: the diagram's validated R index is the attribute `_validate` stores from the private extraction
+    # method; the transformer's segments are the attribute its constructor stores from the parameter that receives that index
     tr = prog.func(MS + ":HaighDiagram.transform")
     call = [c for c in calls_in(tr.node) if call_name(c) == "_SegmentTransformer"]
     if len(call) != 1:
         raise AnalysisError("transform: construction of the segment transformer not found")
     val = prog.func(MS + ":HaighDiagram._validate")
-    vst = [s_ for s_ in walk_function(val.node) if isinstance(s_, ast.Assign) and is_self_attr(s_.targets[0], "_R_index")]
-    fr = prog.func(MS + ":HaighDiagram._find_R_index")
+    hd = prog.cls(MS + ":HaighDiagram")
+    vst, fr = [], None
+    for s_ in walk_function(val.node):
+        if isinstance(s_, ast.Assign) and is_self_attr(s_.targets[0]):
+            for c in calls_in(s_.value):
+                if isinstance(c.func, ast.Attribute) and is_self_attr(c.func) and c.func.attr.startswith("_"):
+                    cal = prog.lookup_method(hd, c.func.attr)
+                    if cal is not None and any(isinstance(n_, ast.Attribute) and n_.attr in ("index", "get_level_values")
+                                               for n_ in ast.walk(cal.node)) and "R" in {const_value(n_) for n_ in ast.walk(cal.node)
+                                                                                         if isinstance(n_, ast.Constant)}:
+                        vst.append(s_)
+                        fr = cal
+    if len(vst) != 1 or fr is None:
+        raise AnalysisError("HaighDiagram._validate: the store of the validated R index was not found")
+    dattr = vst[0].targets[0].attr
+    seg_pos = [i for i, a_ in enumerate(call[0].args) if any(is_self_attr(n_, dattr) for n_ in ast.walk(a_))]
+    if len(seg_pos) != 1 or seg_pos[0] >= len(params):
+        raise AnalysisError("transform: the argument handing the R index to the segment transformer was not found")
+    seg_param = params[seg_pos[0]]
+    st = [s_ for s_ in walk_function(init.node) if isinstance(s_, ast.Assign) and is_self_attr(s_.targets[0]) and
+          seg_param in names_in(s_.value) and not isinstance(s_.value, ast.Call) or
+          (isinstance(s_, ast.Assign) and is_self_attr(s_.targets[0]) and seg_param in names_in(s_.value) and
+           _order_kept(s_.value, params)[0] in ("kept", "reordered"))]
+    if len(st) != 1:
+        raise AnalysisError("_SegmentTransformer.__init__: single store of the R segments expected")
+    chain = [(init, st[0], st[0].value)]
     rets = [s_ for s_ in walk_function(fr.node) if isinstance(s_, ast.Return) and s_.value is not None]
     kind, what = _order_kept(st[0].value, params)
     pos = params.index(what) if kind == "kept" and what in params else None
@@ -155,8 +177,8 @@ def _r5(ctx):
         ctx.holds(init, st[0], "transformer stores the segments as given (%s)" % what)
         arg = call[0].args[pos] if pos < len(call[0].args) else None
         k2, w2 = _order_kept(arg, []) if arg is not None else ("unknown", "?")
-        if k2 == "kept" and w2 == "self._R_index":
-            ctx.holds(tr, call[0], "transform hands over the validated index self._R_index")
+        if k2 == "kept" and w2 == "self." + dattr:
+            ctx.holds(tr, call[0], "transform hands over the validated index self.%s" % dattr)
         elif k2 == "reordered":
             ctx.violated(tr, call[0], "transform re-orders the R index (%s) before the transformer sees it" % w2, text="R order transform")
         else:
@@ -190,7 +212,12 @@ def _r5(ctx):
     else:
         raise AnalysisError("_find_R_index / _validate: extraction of the R index not found")
     # the distance sort is the only ordering applied afterwards, and the two unbounded segments tie
-    d = prog.func(MS + ":_SegmentTransformer._distance_from_R_goal")
+    stc = prog.cls(MS + ":_SegmentTransformer")
+    dm = [fi_ for n_, fi_ in prog.methods_of(stc, inherited=False).items()
+          if any(isinstance(x_, ast.Attribute) and x_.attr == "mid" for x_ in ast.walk(fi_.node))]
+    if len(dm) != 1:
+        raise AnalysisError("_SegmentTransformer: the method computing the distances of the segment mid points was not found")
+    d = dm[0]
     fills = [c for c in calls_in(d.node) if isinstance(c.func, ast.Attribute) and c.func.attr == "fillna"]
     if fills:
         ctx.holds(d, fills[0], "unbounded segments (mid = +-inf) both get the fill value: equal distance, order decided by the index order")
@@ -502,10 +529,17 @@ def _r3(ctx):
     if md:
         forms.append(("transformed_amplitude.mean", f, md[0], to_nf(md[0].value, atom=lambda e: (
             "R" if isinstance(e, ast.Attribute) and e.attr == "R" else ("amp" if isinstance(e, ast.Name) and e.id == amp_n[0] else None))) / RF.sym("amp")))
-    fm = prog.functions.get(MS + ":_SegmentTransformer._distance_from_R_goal.fake_meanstress")
-    if fm is not None:
-        r = [s for s in fm.node.body if isinstance(s, ast.Return)][0]
-        forms.append(("fake_meanstress", fm, r, to_nf(r.value)))
+    # the closure of the segment transformer that maps a stress ratio to the mean stress of a unit amplitude
+    for k_, fm in sorted(prog.functions.items()):
+        if fm.parent is not None and fm.parent.cls is not None and fm.parent.cls.name == "_SegmentTransformer" and \
+                len(fm.params) == 1 and any(isinstance(x_, ast.Attribute) and x_.attr == "mid" for x_ in ast.walk(fm.parent.node)):
+            r = [s for s in fm.node.body if isinstance(s, ast.Return)]
+            if len(r) == 1 and r[0].value is not None:
+                try:
+                    forms.append(("unit-amplitude mean stress closure %s" % fm.name, fm, r[0], to_nf(
+                        r[0].value, atom=lambda e, p_=fm.params[0]: "R" if isinstance(e, ast.Name) and e.id == p_ else None)))
+                except NFUnsupported:
+                    pass
     tr = prog.func(MS + ":HaighDiagram.transform")
     d = [n for n in ast.walk(tr.node) if isinstance(n, ast.Dict)]
     if d:
